@@ -20,7 +20,7 @@ def sha_dir(d: Path, skip=()):
     return out
 
 
-def build_inputs(rng, d: Path, driver, with_crs, stem):
+def build_inputs(rng, d: Path, driver, with_crs, stem, empty_area=False):
     import geopandas as gpd
     from shapely.geometry import box
 
@@ -32,7 +32,7 @@ def build_inputs(rng, d: Path, driver, with_crs, stem):
     n = len(geoms)
     crs = "EPSG:3067" if with_crs else None
     traces = gpd.GeoDataFrame({"uid": [f"u{i}" for i in range(n)], "val": [i * 0.25 for i in range(n)]}, geometry=geoms, crs=crs)
-    area = gpd.GeoDataFrame({"name": ["a"]}, geometry=[box(-30, -30, 40.0 * len(names) + 10, 30)], crs=crs)
+    area = gpd.GeoDataFrame({"name": ["a"]}, geometry=[box(5000, 5000, 5100, 5100) if empty_area else box(-30, -30, 40.0 * len(names) + 10, 30)], crs=crs)
     tp = d / f"{stem}_traces{EXT[driver]}"
     ap = d / f"{stem}_area{EXT[driver]}"
     traces.to_file(tp, driver=driver)
@@ -58,7 +58,7 @@ def s19_tracevalidate(ctx):
     runner = CliRunner()
     tmp = Path(tempfile.mkdtemp(prefix="fv_c19_", dir="/var/tmp"))
     try:
-        n = budget(ctx.tier, 14, 150)
+        n = budget(ctx.tier, 24, 200)
         pend = []
         for k in range(n):
             d = tmp / f"c{k}"
@@ -66,7 +66,8 @@ def s19_tracevalidate(ctx):
             driver = rng.choice(list(EXT))
             with_crs = rng.random() < 0.6
             stem = rng.choice(["kb7", "map", "x"])
-            tp, ap, names = build_inputs(rng, d, driver, with_crs, stem)
+            empty_area = rng.random() < 0.2  # target area void of traces (with --no-allow-empty-area: the documented EMPTY TARGET AREA exit)
+            tp, ap, names = build_inputs(rng, d, driver, with_crs, stem, empty_area)
             mode = rng.choice(["fresh", "existing", "prefix", "inplace"])
             if mode == "fresh":
                 op = d / "out" / f"validated{EXT[driver]}"
@@ -92,7 +93,9 @@ def s19_tracevalidate(ctx):
                 choose_validators=(TargetAreaSnapValidator,) if opts["only_area"] else None, allow_empty_area=opts["allow_empty"])
             r = runner.invoke(APP, args)
             after = sha_dir(d, skip=skip)
-            case = {"stream": "S19-tracevalidate", "driver": driver, "crs": with_crs, "gadgets": names, "mode": mode, "opts": opts, "stem": stem}
+            case = {"stream": "S19-tracevalidate", "driver": driver, "crs": with_crs, "gadgets": names, "mode": mode, "opts": opts, "stem": stem, "empty_area": empty_area}
+            if empty_area and not opts["allow_empty"]:
+                res.distribution["empty_area_exit"] = res.distribution.get("empty_area_exit", 0) + 1
             res.evaluations += 1
             res.distribution[driver] = res.distribution.get(driver, 0) + 1
             res.distribution[mode] = res.distribution.get(mode, 0) + 1
